@@ -270,7 +270,7 @@ def run_all(pid, case_sets, file_sets, seed, ah_exe, validate=True, invariants=(
                 json.dump({"kind": "tlc", "cases": name, "violation": tl["violation"], "log": r.get("tlc_log")}, f, indent=1)
             violations.append({"replay": path, "what": "TLC: %s in %s (the specification of the construction violates "
                                                         "its declarative meaning)" % (tl["violation"], name)})
-        elif not tl["ok"]:
+        elif not tl["ok"] and "crash" not in r:      # (TLC is killed when the harness dies)
             raise vf.Infra("TLC did not finish on %s: %s (%s)" % (name, tl["error"], r.get("tlc_log")))
         a = r.get("ah")
         if a is None and ("crash" in r):
